@@ -1,6 +1,10 @@
 import PhyloModel.Props.C01
 import PhyloModel.Newick.Reject
 import PhyloModel.Newick.Balanced
+import PhyloModel.Newick.QuoteInv
+import PhyloModel.Newick.BalancedTok
+import PhyloModel.Newick.LexPlain
+import PhyloModel.Newick.FloatLexeme
 /-! # C02 — the Newick parser is total and only ever returns well-formed trees
 
 `NW.parse` is a fold of `NW.step` over the characters (hence terminates on every string).  Every partial
@@ -60,6 +64,175 @@ example :
     (match parse (fun (l : Label) => some l) "((A,B);".toList with | .done _ => true | _ => false) = false ∧
     (match parse (fun (l : Label) => some l) "(A,B));".toList with | .done _ => true | _ => false) = false ∧
     (match parse (fun (l : Label) => some l) "((A,B));".toList with | .done _ => true | _ => false) = true := by
+  decide
+
+
+/-! ## C02 for every text — double quotes and bracket comments anywhere
+
+`Props/C02.lean` proves the label / normal-form clauses only for text without `"` and the rejection of
+unbalanced parentheses only for text without `"` and `[`.  Here the restrictions are removed.
+
+* `labels_ok_all`, `normal_form_all`: unconditional.
+* `reject_unbalanced_all`: in the plain three-mode lexical reading `NW.toks3` (plain text / inside double
+  quotes / inside a bracket comment; `(`, `)`, `;` are structural only in plain mode), for every text, given
+  that the number parser refuses lexemes containing a double quote (`NW.QuoteRefusing`, true of Rust's
+  `f64::from_str`).  `reject_unbalanced_exact` needs no assumption on the number parser: it uses the exact
+  token stream `NW.ltoks`, which differs from `toks3` only in that a `"` inside a branch length does not open
+  a quoted section (it is kept in the length lexeme).  `hpl_needed` shows the assumption cannot be dropped
+  for an arbitrary number parser.
+
+History: on the model of the parser BEFORE repair 766b4db (the `"` arm flipped `within_quotes` in every
+field but stored the character only in the name field) all three statements were false; the witnesses
+`(a:1",(b",c);` (accepted, stored name `(b"`, written form rejected), `(a:1"(,)",c));` and `:";` are
+rejected now (`old_witnesses_rejected`). -/
+
+open NW
+variable {L : Type} (parseLen : Label → Option L)
+
+/-- every label stored by the parser, on ANY text, lies in the domain of the round-trip theorem C01 -/
+theorem labels_ok_all (cs : List Char) (a : Array (PNode L)) (h : parse parseLen cs = .done a) :
+    ∀ i, nameWF (nd a i).name ∧ commentWF (nd a i).comment :=
+  NW.labels_ok_all parseLen cs a h
+
+/-- normal form, for ANY accepted text: the returned arena represents a tree `t`; its written form parses
+    back to an arena representing the same `t`, which is written identically again -/
+theorem normal_form_all {showLen : L → Label} (hc : Codec parseLen showLen) (cs : List Char)
+    (a : Array (PNode L)) (h : parse parseLen cs = .done a) :
+    ∃ t txt a', RepN a 0 t ∧ toNewickF showLen (a.size + 1) .allFields a 0 = some txt ∧
+      parse parseLen (txt ++ [';']) = .done a' ∧ RepN a' 0 t ∧
+      toNewickF showLen (a'.size + 1) .allFields a' 0 = some txt := by
+  obtain ⟨hs, hpos⟩ := (C02_parse_wf parseLen cs).2 a h
+  have hlab := NW.labels_ok_all parseLen cs a h
+  obtain ⟨t, hrep, hht, hwf⟩ := struct_rep a hs hlab a.size 0 (by omega) hpos
+  obtain ⟨txt, a', h1, h2, h3, h4⟩ := C01.roundtrip_arena hc a 0 t hrep hwf (a.size + 1) (by omega)
+  exact ⟨t, txt, a', hrep, h1, h2, h3, h4⟩
+
+/-- **unbalanced parentheses are rejected — every text, plain lexical reading**: whatever is accepted has a
+    structural `;` (one outside double quotes and outside bracket comments), and the structural parentheses
+    `ts` before the first structural `;` are balanced: as many `(` as `)`, and no prefix closes more than it
+    opened.  (`toks3 .plain cs = none` means: no structural `;`.) -/
+theorem reject_unbalanced_all (hpl : QuoteRefusing parseLen) (cs : List Char) (a : Array (PNode L))
+    (h : parse parseLen cs = .done a) :
+    ∃ ts, toks3 .plain cs = some ts ∧ ts.count '(' = ts.count ')' ∧
+      ∀ p, p <+: ts → p.count ')' ≤ p.count '(' :=
+  accepted_is_balanced_toks3 parseLen hpl cs a h
+
+/-- contrapositive form: text with no structural `;`, or whose structural parentheses before the first
+    structural `;` are not balanced, is rejected -/
+theorem reject_unbalanced_all' (hpl : QuoteRefusing parseLen) (cs : List Char)
+    (hbad : ∀ ts, toks3 .plain cs = some ts → ¬ Balanced ts) (a : Array (PNode L)) :
+    parse parseLen cs ≠ .done a := by
+  intro h
+  obtain ⟨ts, e1, e2⟩ := accepted_is_balanced_toks3 parseLen hpl cs a h
+  exact hbad ts e1 e2
+
+/-- the same for an arbitrary number parser, with the exact token stream -/
+theorem reject_unbalanced_exact (cs : List Char) (a : Array (PNode L)) (h : parse parseLen cs = .done a) :
+    ∃ ts, ltoks .name cs = some ts ∧ ts.count '(' = ts.count ')' ∧
+      ∀ p, p <+: ts → p.count ')' ≤ p.count '(' :=
+  accepted_is_balanced_exact parseLen cs a h
+
+/-- text with a double quote inside a branch length (before the finishing `;`) is rejected -/
+theorem reject_quote_in_length (hpl : QuoteRefusing parseLen) (cs : List Char) (hq : lenQuoteFree .name cs = false)
+    (a : Array (PNode L)) : parse parseLen cs ≠ .done a := by
+  intro h
+  rw [accepted_lenQuoteFree parseLen hpl cs a h] at hq
+  cases hq
+
+/-- … it ends in an error (no panic, no tree) -/
+theorem reject_quote_in_length_err (hpl : QuoteRefusing parseLen) (cs : List Char)
+    (hq : lenQuoteFree .name cs = false) : ∃ e, parse parseLen cs = .err e := by
+  have h1 := (parse_total_wf parseLen cs).1
+  have h2 := reject_quote_in_length parseLen hpl cs hq
+  cases hp : parse parseLen cs with
+  | cont s => unfold parse at hp; split at hp <;> simp_all
+  | done a => exact absurd hp (h2 a)
+  | err e => exact ⟨e, rfl⟩
+  | panic => exact absurd hp h1
+
+/-- `C02.reject_unbalanced` (text without `"` and `[`, every parenthesis structural) is a corollary of the
+    general theorem: there `toks3` is just "the parentheses before the first `;`" (`NW.toks3_plain_text`) -/
+theorem reject_unbalanced_again (cs : List Char) (hq : '"' ∉ cs) (hb : '[' ∉ cs) (a : Array (PNode L))
+    (h : parse parseLen cs = .done a) :
+    ∃ mid post, cs = mid ++ ';' :: post ∧ ';' ∉ mid ∧ mid.count '(' = mid.count ')' ∧
+      ∀ p, p <+: mid → p.count ')' ≤ p.count '(' :=
+  accepted_is_balanced_again parseLen cs hq hb a h
+
+/-- instance for the Rust-float recogniser of the test driver (twin in `Newick/FloatLexeme.lean`): no
+    assumption left -/
+theorem reject_unbalanced_float (cs : List Char) (a : Array (PNode Label))
+    (h : parse FloatTwin.parseLex cs = .done a) :
+    ∃ ts, toks3 .plain cs = some ts ∧ ts.count '(' = ts.count ')' ∧
+      ∀ p, p <+: ts → p.count ')' ≤ p.count '(' :=
+  accepted_is_balanced_toks3 FloatTwin.parseLex FloatTwin.parseLex_refusing cs a h
+
+/-! ### non-vacuity and witnesses -/
+
+/-- a quote-refusing number parser (stands for `f64::from_str`) -/
+def pq (l : Label) : Option Label := if '"' ∈ l then none else some l
+
+theorem pq_refusing : QuoteRefusing pq := by
+  intro l h; simp [pq, h]
+
+/-- `("a(b",c);` is accepted with 3 nodes, the quoted parenthesis being a name character;
+    `("a(b,c);` (unterminated quote) is rejected -/
+example :
+    (match parse pq "(\"a(b\",c);".toList with
+      | .done a => a.size == 3 && (nd a 1).name == some "\"a(b\"".toList | _ => false) = true ∧
+    (match parse pq "(\"a(b,c);".toList with | .done _ => true | _ => false) = false := by
+  decide
+
+/-- comments: `(a[x(y],b)[;]r;` is accepted with 3 nodes (the `(` and the first `;` are comment text);
+    `(a[x,b);` (unterminated comment) is rejected; a `"` inside a comment and a `[` inside quotes are inert -/
+example :
+    (match parse pq "(a[x(y],b)[;]r;".toList with
+      | .done a => a.size == 3 && (nd a 1).comment == some "x(y".toList && (nd a 0).comment == some ";".toList
+      | _ => false) = true ∧
+    (match parse pq "(a[x,b);".toList with | .done _ => true | _ => false) = false ∧
+    (match parse pq "(a[\"],\"[\",c);".toList with
+      | .done a => a.size == 4 && (nd a 2).name == some "\"[\"".toList | _ => false) = true := by
+  decide
+
+/-- the three-mode token streams of these texts -/
+example :
+    toks3 .plain "(\"a(b\",c);".toList = some ['(', ')'] ∧
+    toks3 .plain "(\"a(b,c);".toList = none ∧
+    toks3 .plain "(a[x(y],b)[;]r;".toList = some ['(', ')'] ∧
+    toks3 .plain "((\"a)\",b);".toList = some ['(', '(', ')'] := by
+  decide
+
+/-- `(("a)",b);` has unbalanced structural parentheses (the quoted `)` does not count) and is rejected,
+    `(("a)",b));` is accepted -/
+example :
+    (match parse pq "((\"a)\",b);".toList with | .done _ => true | _ => false) = false ∧
+    (match parse pq "((\"a)\",b));".toList with | .done a => a.size == 4 | _ => false) = true := by
+  decide
+
+/-- the witnesses against the parser before the repair are rejected now -/
+theorem old_witnesses_rejected :
+    (match parse pq "(a:1\",(b\",c);".toList with | .done _ => true | _ => false) = false ∧
+    (match parse pq "(a:1\"(,)\",c));".toList with | .done _ => true | _ => false) = false ∧
+    (match parse pq ":\";".toList with | .done _ => true | _ => false) = false := by
+  decide
+
+/-- … also with the Rust-float recogniser; `(a:1e-3,("b(":.5,c));` is accepted by it -/
+example :
+    (match parse FloatTwin.parseLex "(a:1\",(b\",c);".toList with | .done _ => true | _ => false) = false ∧
+    (match parse FloatTwin.parseLex "(a:1\"(,)\",c));".toList with | .done _ => true | _ => false) = false ∧
+    (match parse FloatTwin.parseLex ":\";".toList with | .done _ => true | _ => false) = false ∧
+    (match parse FloatTwin.parseLex "(a:1e-3,(\"b(\":.5,c));".toList with
+      | .done a => a.size == 5 | _ => false) = true := by
+  decide
+
+/-- the assumption on the number parser cannot be dropped from `reject_unbalanced_all`: with a number parser
+    accepting everything, `(a:1"(b"),c);` is accepted (the `(` after the `"` is structural, `1"b"` is the
+    length lexeme) although its three-mode token stream `( ) )` is unbalanced; the exact stream is `( ( ) )` -/
+theorem hpl_needed :
+    (match parse (fun (l : Label) => some l) "(a:1\"(b\"),c);".toList with
+      | .done a => a.size == 4 | _ => false) = true ∧
+    toks3 .plain "(a:1\"(b\"),c);".toList = some ['(', ')', ')'] ∧
+    ltoks .name "(a:1\"(b\"),c);".toList = some ['(', '(', ')', ')'] ∧
+    (match parse pq "(a:1\"(b\"),c);".toList with | .done _ => true | _ => false) = false := by
   decide
 
 end C02
